@@ -482,18 +482,247 @@ def gen_dfc(rng, tier):
         yield {"v": [rng.randint(-10**6, 10**6), rng.randint(-3, 16), rng.randint(-5, 40)]}
 
 
+# ----------------------------------------------------------------- standard-library conversions
+import datetime as _dt  # noqa: E402
+
+_US = _dt.timedelta(microseconds=1)
+
+
+def _off_us(obj):
+    td = obj.utcoffset()
+    return None if td is None else td // _US
+
+
+def _dt_fields(r):
+    return [r.year, r.month, r.day, r.hour, r.minute, r.second, r.microsecond, _off_us(r)]
+
+
+def impl_to_std(a):
+    kind, v = a["kind"], a["v"]
+    try:
+        if kind == "date.to_date":
+            r = XmlDate(*v).to_date()
+            out = [r.year, r.month, r.day]
+        elif kind == "date.to_datetime":
+            out = _dt_fields(XmlDate(*v).to_datetime())
+        elif kind == "time.to_time":
+            r = XmlTime(*v).to_time()
+            out = [r.hour, r.minute, r.second, r.microsecond, _off_us(r)]
+        else:
+            out = _dt_fields(XmlDateTime(*v).to_datetime())
+    except ValueError:
+        return err("ValueError")
+    except OverflowError:
+        return err("OverflowError")
+    except Exception as e:  # noqa: BLE001
+        return err("LEAK:" + type(e).__name__)
+    return ok(out)
+
+
+def _mk_tz(u):
+    return None if u is None else _dt.timezone(_dt.timedelta(microseconds=u))
+
+
+def impl_from_std(a):
+    kind, v = a["kind"], a["v"]
+    if kind == "date.from_date":
+        return ok(list(XmlDate.from_date(_dt.date(*v))))
+    if kind == "date.from_datetime":
+        return ok(list(XmlDate.from_datetime(_dt.datetime(*v[:7], tzinfo=_mk_tz(v[7])))))
+    if kind == "time.from_time":
+        return ok(list(XmlTime.from_time(_dt.time(*v[:4], tzinfo=_mk_tz(v[4])))))
+    return ok(list(XmlDateTime.from_datetime(_dt.datetime(*v[:7], tzinfo=_mk_tz(v[7])))))
+
+
+C_INT = 2**31
+EDGE_YEARS = [0, 1, 9999, 10000, -1, C_INT - 1, C_INT, -C_INT, -C_INT - 1, 10**30]
+EDGE_OFFSETS = [None, 0, 1, -1, 840, -840, 1439, -1439, 1440, -1440, 999999999 * 1440 + 1439, 999999999 * 1440 + 1440,
+                -999999999 * 1440, -999999999 * 1440 - 1, 10**13, -(10**13), 10**40]
+EDGE_FRACS = [0, 1, 999, 1000, 999999999, 10**9, -1, -1000, -1001, C_INT * 1000 - 1, C_INT * 1000, -C_INT * 1000, -C_INT * 1000 - 1]
+
+
+def gen_to_std(rng, tier):
+    n = 400 if tier == "quick" else 60000
+    # bounded-exhaustive: every edge year x every edge offset; every edge fraction; field overflows
+    for y in EDGE_YEARS:
+        for o in EDGE_OFFSETS:
+            yield {"kind": "datetime.to_datetime", "v": [y, 6, 15, 12, 30, 30, 5000, o]}
+            yield {"kind": "date.to_datetime", "v": [y, 6, 15, o]}
+        yield {"kind": "date.to_date", "v": [y, 2, 29, 60]}
+    for f in EDGE_FRACS:
+        for o in (None, 0, 90, 1440):
+            yield {"kind": "datetime.to_datetime", "v": [2024, 2, 29, 23, 59, 59, f, o]}
+            yield {"kind": "time.to_time", "v": [23, 59, 59, f, o]}
+    for i in range(7):
+        for bad in (-1, 0, 13, 24, 32, 60, 61, C_INT, -C_INT - 1):
+            v = [2023, 2, 28, 23, 59, 59, 999999999, None]
+            v[i] = bad
+            yield {"kind": "datetime.to_datetime", "v": v}
+            if i >= 3:
+                yield {"kind": "time.to_time", "v": v[3:]}
+            if i < 3:
+                yield {"kind": "date.to_date", "v": v[:3] + [None]}
+    for o in EDGE_OFFSETS:
+        yield {"kind": "time.to_time", "v": [0, 0, 0, 0, o]}
+    for _ in range(n):
+        k = rng.randrange(4)
+        if k == 0:
+            v = rand_value(rng, "datetime")
+            kind = "datetime.to_datetime"
+        elif k == 1:
+            v = rand_value(rng, "time")
+            kind = "time.to_time"
+        else:
+            v = rand_value(rng, "date")
+            kind = "date.to_date" if k == 2 else "date.to_datetime"
+        r = rng.random()
+        if r < 0.55:  # keep inside the representable region most of the time
+            if kind.startswith("date") or kind.startswith("datetime"):
+                v[0] = rng.randint(1, 9999)
+                v[2] = min(v[2], D.monthlen(v[0], v[1]))
+            if kind == "datetime.to_datetime" and v[3] == 24:
+                v[3] = 0
+            if kind == "time.to_time" and v[0] == 24:
+                v[0] = 0
+        elif r < 0.7:
+            v[-1] = rng.choice(EDGE_OFFSETS + [rng.randint(-2000, 2000)])
+        elif r < 0.8 and kind in ("datetime.to_datetime", "time.to_time"):
+            v[-2] = rng.choice(EDGE_FRACS)
+        yield {"kind": kind, "v": v}
+
+
+DAY_US = 86400 * 10**6
+
+
+def rand_utcoffset(rng):
+    r = rng.random()
+    if r < 0.25:
+        return None
+    if r < 0.35:
+        return 0
+    if r < 0.6:
+        return rng.randint(-1439, 1439) * 60 * 10**6  # whole minutes
+    if r < 0.75:
+        return rng.randint(-86399, 86399) * 10**6  # whole seconds
+    if r < 0.85:
+        return rng.choice([DAY_US - 1, -DAY_US + 1, 59999999, -59999999, 60000001, -60000001, 1, -1, -86370 * 10**6])
+    return rng.randint(-DAY_US + 1, DAY_US - 1)
+
+
+def gen_from_std(rng, tier):
+    n = 400 if tier == "quick" else 60000
+    for u in (None, 0, 1, -1, 59999999, 60000000, 60000001, -59999999, -60000000, -60000001, DAY_US - 1, -DAY_US + 1, 19815 * 10**6):
+        yield {"kind": "datetime.from_datetime", "v": [1, 1, 1, 0, 0, 0, 0, u]}
+        yield {"kind": "datetime.from_datetime", "v": [9999, 12, 31, 23, 59, 59, 999999, u]}
+        yield {"kind": "time.from_time", "v": [23, 59, 59, 999999, u]}
+        yield {"kind": "date.from_datetime", "v": [2024, 2, 29, 23, 59, 59, 999999, u]}
+    for _ in range(n):
+        y = rng.choice([1, 9999, rng.randint(1, 9999)])
+        m = rng.randint(1, 12)
+        d = rng.randint(1, D.monthlen(y, m))
+        t = [rng.randint(0, 23), rng.randint(0, 59), rng.randint(0, 59), rng.choice([0, 1, 999, 1000, 999999, rng.randint(0, 999999)])]
+        k = rng.randrange(4)
+        if k == 0:
+            yield {"kind": "date.from_date", "v": [y, m, d]}
+        elif k == 1:
+            yield {"kind": "date.from_datetime", "v": [y, m, d, *t, rand_utcoffset(rng)]}
+        elif k == 2:
+            yield {"kind": "time.from_time", "v": [*t, rand_utcoffset(rng)]}
+        else:
+            yield {"kind": "datetime.from_datetime", "v": [y, m, d, *t, rand_utcoffset(rng)]}
+
+
+def classify_std(a, o):
+    u = a["v"][-1] if not a["kind"].endswith("_date") else None
+    if a["kind"].split(".")[1].startswith("from"):
+        oc = "naive" if u is None else "utc" if u == 0 else "minutes" if u % 60000000 == 0 else "subminute"
+        return a["kind"] + ":" + oc
+    return a["kind"] + ":" + ("ok" if "ok" in o else o["err"])
+
+
+# ----------------------------------------------------------------- distribution buckets (evidence: classify=)
+def classify_parse(a, o):
+    s = a["s"]
+    if "err" in o:
+        return a["kind"] + ":" + o["err"]
+    feats = []
+    if s != s.strip():
+        feats.append("ws")
+    if "." in s:
+        feats.append("frac%d" % len(re.search(r"\.([0-9]*)", s).group(1)))
+    v = o["ok"]
+    if v[-1] is None:
+        feats.append("notz")
+    elif s.rstrip().endswith("Z"):
+        feats.append("Z")
+    else:
+        feats.append("tz")
+    if a["kind"] != "time" and (v[0] <= 0 or v[0] > 9999):
+        feats.append("bigyear")
+    if a["kind"] != "date" and v[-5] == 24:
+        feats.append("h24")
+    return a["kind"] + ":ok:" + "+".join(feats)
+
+
+def classify_str(a, o):
+    v = a["v"]
+    f = []
+    if a["kind"] != "date":
+        fr = v[-2]
+        f.append("f0" if fr == 0 else "f9" if fr % 1000 else "f6" if fr % 1000000 else "f3")
+    f.append("notz" if v[-1] is None else "Z" if v[-1] == 0 else "neg" if v[-1] < 0 else "pos")
+    if a["kind"] != "time":
+        f.append("y<0" if v[0] < 0 else "y4" if v[0] <= 9999 else "y5+")
+    return a["kind"] + ":" + "+".join(f)
+
+
+def classify_period(a, o):
+    if "err" in o:
+        return "err:" + o["err"]
+    v = o["ok"]
+    shape = "gYearMonth" if v["year"] is not None and v["month"] is not None else "gYear" if v["year"] is not None else \
+        "gMonthDay" if v["month"] is not None and v["day"] is not None else "gMonth" if v["month"] is not None else "gDay"
+    return shape + (":tz" if v["offset"] is not None else ":notz") + (":bogus--" if a["s"].strip()[4:6] == "--" and shape == "gMonth" else "")
+
+
+def classify_dur(a, o):
+    if "err" in o:
+        return "err:" + o["err"]
+    v = o["ok"]
+    comps = "".join(c for c, k in zip("YMDHmS", ("years", "months", "days", "hours", "minutes", "seconds")) if v[k] is not None)
+    return ("-" if v["negative"] else "+") + ("n%d" % len(comps)) + (":frac" if v["seconds"] is not None and "." in a["s"] else "")
+
+
+def classify_cmp(a, o):
+    r = o["ok"]
+    rel = "eq" if r[0] else "lt" if r[2] else "gt"
+    same_off = (a["a"][-1] or 0) == (a["b"][-1] or 0)
+    return a["kind"] + ":" + rel + (":sameoff" if same_off else ":diffoff")
+
+
+def classify_args(a, o):
+    return a["fmt"] + ":" + ("ok" if "ok" in o else o["err"])
+
+
 CORRS = [
-    Corr("date.parse", gen_parse, impl_parse, nontrivial=lambda a, o: len(a["s"]) > 4,
+    Corr("date.parse", gen_parse, impl_parse, nontrivial=lambda a, o: len(a["s"]) > 4, classify=classify_parse,
          describe="XmlDate/XmlTime/XmlDateTime.from_string vs model"),
-    Corr("date.str", gen_str, impl_str, describe="__str__ vs model"),
-    Corr("date.args", gen_args, impl_args, nontrivial=lambda a, o: len(a["s"]) > 2, describe="parse_date_args on every DateFormat"),
+    Corr("date.str", gen_str, impl_str, classify=classify_str, describe="__str__ vs model"),
+    Corr("date.args", gen_args, impl_args, nontrivial=lambda a, o: len(a["s"]) > 2, classify=classify_args,
+         describe="parse_date_args on every DateFormat"),
     Corr("py.int", gen_int, impl_int, nontrivial=lambda a, o: len(a["s"]) > 0, describe="CPython int(str) vs Py.pyInt"),
     Corr("date.validate_date", gen_vdate, impl_validate_date),
     Corr("date.validate_time", gen_vtime, impl_validate_time),
-    Corr("period.parse", gen_period, impl_period, nontrivial=lambda a, o: len(a["s"]) > 2, describe="XmlPeriod(value) vs model"),
-    Corr("dur.parse", gen_dur, impl_dur, canon=canon_dur, nontrivial=lambda a, o: len(a["s"]) > 2, describe="XmlDuration(value) vs model"),
-    Corr("date.cmp", gen_cmp, impl_cmp, describe="six rich comparisons of XmlTime/XmlDateTime vs model key"),
+    Corr("period.parse", gen_period, impl_period, nontrivial=lambda a, o: len(a["s"]) > 2, classify=classify_period,
+         describe="XmlPeriod(value) vs model"),
+    Corr("dur.parse", gen_dur, impl_dur, canon=canon_dur, nontrivial=lambda a, o: len(a["s"]) > 2, classify=classify_dur,
+         describe="XmlDuration(value) vs model"),
+    Corr("date.cmp", gen_cmp, impl_cmp, classify=classify_cmp, describe="six rich comparisons of XmlTime/XmlDateTime vs model key"),
     Corr("date.days_from_civil", gen_dfc, impl_dfc),
+    Corr("date.to_std", gen_to_std, impl_to_std, classify=classify_std,
+         describe="to_date/to_time/to_datetime vs the record model of datetime (error kinds included)"),
+    Corr("date.from_std", gen_from_std, impl_from_std, classify=classify_std,
+         describe="from_date/from_time/from_datetime on real stdlib objects (utcoffset down to microseconds) vs model"),
 ]
 
 # ----------------------------------------------------------------- oracle
